@@ -732,6 +732,17 @@ def _run(run):
         model = m[1:4]
         for i in range(nout):
             model += [m[4 + 2 * i], 1 if m[5 + 2 * i] else 0]
+        # informational: the exact per-task shape (Model.strict_shape)
+        if info["err"] is None:
+            if m[4 + 2 * nout] == 1:
+                run.count("strict-shape-ok")
+            else:
+                run.count("strict-shape-changed")
+                run.notes.append(
+                    "informational: the %s trace of case %d is accepted by "
+                    "the protocol but no longer has the exact shape recorded "
+                    "in Model/C10.v (table in the header)" % (case["task"],
+                                                              idx))
         cd = case_desc(idx, -1, "none")
         run.record_case(cd, True)
         run.count("task:%s" % case["task"])
